@@ -262,15 +262,13 @@ class Closure(object):
                         self.problem('accessor-missing', p, '%s=%r is not a method of %s' % (attr, v, t.get('name')))
                     elif ms[0].get(mattr) != p.get('name'):
                         self.problem('accessor-not-mutual', p, '%s=%r but that method has %s=%r' % (attr, v, mattr, ms[0].get(mattr)))
+            # the converse (a method's explicit set-property/get-property naming a property whose accessor is another method)
+            # is a contradiction between two annotations of the input, not between an inferred accessor and its method: the
+            # statement does not cover it, so it is counted but not judged
             for m in t.findall('method', 'method-inline'):
-                for attr, pattr in (('glib:set-property', 'setter'), ('glib:get-property', 'getter')):
-                    v = m.get(attr)
-                    if v is None:
-                        continue
-                    self.counts['accessor-reference'] += 1
-                    ps = [p for p in t.findall('property') if p.get('name') == v]
-                    if ps and ps[0].get(pattr) is not None and ps[0].get(pattr) != m.get('name') and pattr == 'setter':
-                        self.problem('accessor-not-mutual', m, '%s=%r but property %s has %s=%r' % (attr, v, v, pattr, ps[0].get(pattr)))
+                for attr in ('glib:set-property', 'glib:get-property'):
+                    if m.get(attr) is not None:
+                        self.counts['accessor-reference'] += 1
         for r in ns.findall('record'):
             sf = r.get('glib:is-gtype-struct-for')
             if sf is not None:
